@@ -1,4 +1,4 @@
-\* optional (VERIF_C06_BIG=1, ~12.3e6 distinct states, ~10 min with 4 workers): as MC_fixed3 with a 2-tick quota window and one more tick
+\* optional (VERIF_C06_BIG=1): as MC_fixed3 with a 2-tick quota window and one more tick
 CONSTANTS
   Req = {"r1", "r2", "r3"}
   Prio <- cPrio3
@@ -9,6 +9,7 @@ CONSTANTS
   QW = 2
   MaxNow = 4
   Shutdowns = FALSE
+  Faults = FALSE
   SplitSlotCheck = FALSE
   RequeueNewTs = FALSE
   StopAllGuarded = TRUE
@@ -17,6 +18,8 @@ CONSTANTS
   HeapFifo = TRUE
   SlotStrict = TRUE
   CallsStopAll = TRUE
+  PushBeforeRegister = FALSE
+  FaultDropsHead = FALSE
 SPECIFICATION Spec
 INVARIANTS TypeOK OneVerdict OnlyIfQuota Order SizeBound NoCrash Protocol Faithful
 VIEW View
